@@ -70,8 +70,10 @@ func genC27(r *Rand, n int, tier string, emit func(string)) {
 		fee := Pick(r, uint64(170000), 0, uint64(r.Intn(1000000)))
 		items := []string{}
 		var consumed, produced, tokOut big.Int
+		var consumedC, producedC big.Int // the balance as the code computes it (certificate amounts, per-certificate pool deposits)
 		add := func(z *big.Int, v uint64) { z.Add(z, new(big.Int).SetUint64(v)) }
 		add(&produced, fee)
+		add(&producedC, fee)
 		// certificates
 		nc := Pick(r, 0, 0, 1, 1, 2, 3, 5)
 		newPools := map[int]bool{}
@@ -94,9 +96,11 @@ func genC27(r *Rand, n int, tier string, emit func(string)) {
 			switch k {
 			case "sreg":
 				add(&produced, kd)
+				add(&producedC, kd)
 				items = append(items, "c:sreg")
 			case "sdereg":
 				add(&consumed, kd)
+				add(&consumedC, kd)
 				items = append(items, "c:sdereg")
 			case "sdeleg", "pret", "vdeleg":
 				items = append(items, "c:"+k)
@@ -110,26 +114,31 @@ func genC27(r *Rand, n int, tier string, emit func(string)) {
 					if !newPools[id] {
 						add(&produced, pd)
 					}
+					add(&producedC, pd)
 					newPools[id] = true
 				}
 				items = append(items, fmt.Sprintf("c:preg:%s:%d", st, id))
 			case "reg", "srd", "vrd", "svrd":
 				a := amt(kd)
 				add(&produced, kd)
+				add(&producedC, a)
 				items = append(items, fmt.Sprintf("c:%s:%d", k, a))
 			case "dreg":
 				a := amt(dd)
 				add(&produced, dd)
+				add(&producedC, a)
 				items = append(items, fmt.Sprintf("c:dreg:%d", a))
 			case "unreg":
 				rec := Pick(r, kd, kd, uint64(r.Intn(3000000)))
 				a := amt(rec)
 				add(&consumed, rec)
+				add(&consumedC, a)
 				items = append(items, fmt.Sprintf("c:unreg:%d:%d", a, rec))
 			case "dunreg":
 				rec := Pick(r, dd, dd, uint64(r.Intn(3000000)))
 				a := amt(rec)
 				add(&consumed, rec)
+				add(&consumedC, a)
 				items = append(items, fmt.Sprintf("c:dunreg:%d:%d", a, rec))
 			}
 		}
@@ -137,6 +146,7 @@ func genC27(r *Rand, n int, tier string, emit func(string)) {
 		for j := Pick(r, 0, 0, 0, 1, 2); j > 0; j-- {
 			w := Pick(r, uint64(0), uint64(r.Intn(5000000)), r.EdgeU64()>>4)
 			add(&consumed, w)
+			add(&consumedC, w)
 			items = append(items, fmt.Sprintf("w:%d", w))
 		}
 		don := uint64(0)
@@ -144,11 +154,13 @@ func genC27(r *Rand, n int, tier string, emit func(string)) {
 			for j := Pick(r, 0, 0, 0, 1, 2); j > 0; j-- {
 				d := Pick(r, uint64(100000000000), uint64(r.Intn(1000)), 0)
 				add(&produced, d)
+				add(&producedC, d)
 				items = append(items, fmt.Sprintf("p:%d", d))
 			}
 			if r.Chance(1, 4) {
 				don = uint64(1 + r.Intn(5000000))
 				add(&produced, don)
+				add(&producedC, don)
 			}
 		}
 		// outputs
@@ -160,6 +172,7 @@ func genC27(r *Rand, n int, tier string, emit func(string)) {
 				t = Pick(r, uint64(1+r.Intn(100)), r.EdgeU64()>>2)
 			}
 			add(&produced, c)
+			add(&producedC, c)
 			add(&tokOut, t)
 			items = append(items, fmt.Sprintf("o:%d:%d", c, t))
 		}
@@ -174,6 +187,10 @@ func genC27(r *Rand, n int, tier string, emit func(string)) {
 		}
 		// inputs: balance coin and token (mostly), spread over 1..3 inputs, some unresolvable
 		needCoin := new(big.Int).Sub(&produced, &consumed)
+		if r.Chance(1, 3) {
+			// balance the transaction the way the code computes it
+			needCoin = new(big.Int).Sub(&producedC, &consumedC)
+		}
 		needTok := new(big.Int).Sub(&tokOut, mint)
 		mode := r.Intn(8)
 		switch mode {
